@@ -206,6 +206,7 @@ reg(Check("C13", "model_checking",
           engine="E2 xstate", claimed=False,
           parts=[Part("inputs", SRV, "^TestVerifC13Inputs$", instr=True, shards=(16, 16), deadline=(300, 3000)),
                  Part("raw", SRV, "^TestVerifC13Raw$", instr=True, shards=(16, 16), deadline=(300, 1200)),
+                 Part("races", SRV, "^TestVerifC13Races$", instr=True, shards=(16, 16), deadline=(300, 3000)),
                  Part("acl-fault", SRV, "^TestVerifC13AclFault$", instr=True, gomaxprocs=16, deadline=(300, 2400)),
                  Part("msg-fault", SRV, "^TestVerifC13MsgFault$", instr=True, gomaxprocs=16, deadline=(300, 2400))]))
 
@@ -224,6 +225,7 @@ for _cid, _what in [("C03", "publish decision = attached AND W in want&given; a 
               engine="E2 xstate", claimed=False,
               parts=[Part("msg", SRV, "^TestVerif%sMsg$" % _cid, instr=True, gomaxprocs=16, deadline=(400, 3000))] +
                     ([Part("p2p", SRV, "^TestVerif%sP2P$" % _cid, instr=True, gomaxprocs=16, deadline=(300, 2400))] if _cid in ("C03", "C09") else []) +
+                    ([Part("races", SRV, "^TestVerifC03Races$", instr=True, shards=(8, 16), deadline=(300, 3000))] if _cid == "C03" else []) +
                     ([Part("ranges", TYPES, "^TestVerifC04Ranges$", shards=(16, 16))] if _cid == "C04" else [])))
 
 reg(Check("C11", "model_checking",
@@ -255,6 +257,7 @@ reg(Check("C10", "model_checking",
           ["canonical schedule for the searches; deviation-bounded schedules for the races"],
           text=XS_NOTE, note="presence convergence scenarios pending", technique="explicit-state + stateless model checking of the implementation",
           engine="E1 detsched + E2 xstate", claimed=False,
-          parts=[Part("acl", SRV, "^TestVerifC10Acl$", instr=True, gomaxprocs=16, deadline=(300, 2400)),
+          parts=[Part("pres", SRV, "^TestVerifC10Pres$", instr=True, gomaxprocs=16, deadline=(300, 2400)),
+                 Part("acl", SRV, "^TestVerifC10Acl$", instr=True, gomaxprocs=16, deadline=(300, 2400)),
                  Part("p2p", SRV, "^TestVerifC10P2P$", instr=True, gomaxprocs=16, deadline=(300, 2400)),
                  Part("races", SRV, "^TestVerifC10Races$", instr=True, shards=(16, 16), deadline=(300, 3000))]))
